@@ -185,7 +185,7 @@ def stage_r(chk, bindir, tier, stats):
                 if sorted(got) != before:
                     ok = False
                     desc = f"{where}: {name} returned {sorted(got)}, events applied before the read: {before}"
-                    if partial_lost and sorted(got) == inmem:
+                    if partial_lost and set(inmem) <= set(got) <= set(before) and len(got) == len(set(got)):
                         if chk.classify([PARTIAL_ID], desc, rep) == "known":
                             stats["known_partial_segment"] += 1
                     elif seg_flow_lost and sorted(got) == inmem:
@@ -199,7 +199,7 @@ def stage_r(chk, bindir, tier, stats):
                 if cnt == x["count"] or (x.get("partial") and cnt == x["count"] + len(x["partial_evs"])):
                     if chk.classify(["C03-aggregate-double-count-during-flush"], desc, rep) == "known":
                         stats["known_double_count"] += 1
-                elif partial_lost and cnt == len(x["inmem"]):
+                elif partial_lost and len(x["inmem"]) <= cnt <= x["count"] + len(x["partial_evs"]):
                     if chk.classify([PARTIAL_ID], desc, rep) == "known":
                         stats["known_partial_segment"] += 1
                 elif seg_flow_lost and cnt == len(x["inmem"]):
@@ -370,8 +370,10 @@ def stage_r2(chk, bindir, tier, stats):
                 allowed = {x["count"]: list(anomalies)}
                 if rsegs.get("partial"):
                     allowed.setdefault(x["count"] + len(rsegs["partial_evs"]), list(dict.fromkeys(anomalies + ["C03-aggregate-double-count-during-flush"])))
-                    allowed.setdefault(x["mem_count"], [PARTIAL_ID])
-                if got in allowed and allowed[got]:
+                    # the rows of any of the scanned segments may be lost (and those of the incomplete one found already)
+                    for v in range(x["mem_count"], x["count"] + len(rsegs["partial_evs"]) + 1):
+                        allowed.setdefault(v, [PARTIAL_ID] if v < x["count"] else list(dict.fromkeys(anomalies + [PARTIAL_ID])))
+                if got in allowed and allowed[got] and not (len(before) <= got <= len(stored) and got != x["count"]):
                     if chk.classify(allowed[got], desc, rep) == "known":
                         stats["r_known"] += 1
                 elif len(before) <= got <= len(stored):
@@ -390,7 +392,7 @@ def stage_r2(chk, bindir, tier, stats):
                 elif lost_m and sorted(got) == sorted(x["selection"]):
                     if chk.classify(["C03-passive-buffer-read-after-release"], desc, rep) == "known":
                         stats["r_known"] += 1
-                elif partial and sorted(got) == sorted(x["mem_selection"]):
+                elif partial and set(x["mem_selection"]) <= set(got) <= (set(x["selection"]) | set(rsegs["partial_evs"])) and len(got) == len(set(got)):
                     if chk.classify([PARTIAL_ID], desc, rep) == "known":
                         stats["r_known_partial"] += 1
                 else:
